@@ -42,6 +42,27 @@ def subterms(t):
     return out
 
 
+def value_subterms(t):
+    """sub-terms the *value* of t depends on: a send holder contributes its passthrough data only"""
+    out = []
+
+    def walk(u):
+        if isinstance(u, list):
+            if u and u[0] == "tag" and isinstance(u[2], list) and u[2] and u[2][0] == "recv":
+                out.append(["recv", u[2][1], u[2][2], u[2][3], u[2][4], u[1]])
+                return
+            if u and u[0] == "send":
+                out.append(u)
+                walk(u[4])
+                return
+            if u and isinstance(u[0], str):
+                out.append(u)
+            for x in u:
+                walk(x)
+    walk(t)
+    return out
+
+
 def comm_terms(prog):
     """-> sends [(rank, term)], recvs [(rank, term)] : distinct terms per rank (structural identity = node identity)"""
     sends, recvs = [], []
@@ -98,7 +119,7 @@ def classify(prog):
     for r, s in sends:
         k = (r, s[2], T.tkey(s[3]))
         need = set()
-        for u in subterms(s[1]):
+        for u in value_subterms(s[1]):
             if u[0] == "recv":
                 need.add((u[1], r, T.tkey(u[2])))
         dep.setdefault(k, set()).update(need)
